@@ -18,6 +18,7 @@ import (
 	"verifharness/gen"
 	"verifharness/world"
 
+	"github.com/gr33nbl00d/caddy-revocation-validator/core/verifhook"
 	"github.com/gr33nbl00d/caddy-revocation-validator/crl"
 )
 
@@ -53,6 +54,8 @@ type Config struct {
 	// Configured CRLs: indices of CDPs whose list is ALSO configured as crl_file / crl_url.
 	ConfFiles []int `json:"conf_files,omitempty"`
 	ConfURLs  []int `json:"conf_urls,omitempty"`
+	// WorkDirSpelling: "" canonical, "slash" trailing slash, "dot" a "/./" component
+	WorkDirSpelling string `json:"work_dir_spelling,omitempty"`
 	// TrustSigners: the issuing CAs are configured as trusted signature certs
 	// (needed for configured CRLs in mode verify: there is no handshake chain at provisioning).
 	TrustSigners bool `json:"trust_signers,omitempty"`
@@ -65,9 +68,16 @@ type CDPSpec struct {
 	Kind string `json:"kind"`
 	// Twin >= 0 (only with Kind http): this set is served at the same host name and path as CDP Twin but on
 	// another port (a second origin), i.e. two distinct locations that differ in nothing but the port.
-	Twin  int  `json:"twin"`
-	NoAKI bool `json:"no_aki,omitempty"` // CRLs of this CDP carry no authorityKeyIdentifier
-	PEM   bool `json:"pem,omitempty"`    // served PEM encoded
+	Twin int `json:"twin"`
+	// Query (only with Kind http / http2 / ldap+http): appended to the URL as "?<query>"; locations that differ
+	// only in the query string are distinct locations. May contain traversal sequences, encoded separators,
+	// unicode, and be very long.
+	Query string `json:"query,omitempty"`
+	// SamePath k > 0: use the path of CDP k-1 (same origin): with different Query strings the two locations
+	// differ in nothing but the query.
+	SamePath int  `json:"same_path,omitempty"`
+	NoAKI    bool `json:"no_aki,omitempty"` // CRLs of this CDP carry no authorityKeyIdentifier
+	PEM      bool `json:"pem,omitempty"`    // served PEM encoded
 }
 
 // Usable reports whether the set contains a location the loader supports.
@@ -262,11 +272,29 @@ type World struct {
 
 var worldSeq atomic.Int64
 
+// updatesDone counts finished CRL update runs (hook "checker.update.done").
+var updatesDone atomic.Int64
+
+func init() {
+	verifhook.Set(func(name string) {
+		if name == "checker.update.done" {
+			updatesDone.Add(1)
+		}
+	})
+}
+
 func (w *World) pathOf(c int) string {
-	if cd := w.spec.CDPs[c]; cd.Kind == "http" && cd.Twin >= 0 && cd.Twin < c {
-		return fmt.Sprintf("/cdp%d.crl", cd.Twin)
+	cd := w.spec.CDPs[c]
+	p := fmt.Sprintf("/cdp%d.crl", c)
+	if cd.Kind == "http" && cd.Twin >= 0 && cd.Twin < c {
+		p = fmt.Sprintf("/cdp%d.crl", cd.Twin)
+	} else if cd.SamePath > 0 && cd.SamePath-1 < c {
+		p = fmt.Sprintf("/cdp%d.crl", cd.SamePath-1)
 	}
-	return fmt.Sprintf("/cdp%d.crl", c)
+	if cd.Query != "" {
+		p += "?" + cd.Query
+	}
+	return p
 }
 
 func (w *World) originOf(c int) *world.Origin {
@@ -282,7 +310,11 @@ func (w *World) urls(c int) []string {
 	case "http":
 		return []string{w.originOf(c).URL(p)}
 	case "http2":
-		return []string{w.origin.URL(p), w.origin.URL(p + ".mirror")}
+		mirror := p + ".mirror"
+		if i := strings.Index(p, "?"); i >= 0 {
+			mirror = p[:i] + ".mirror" + p[i:]
+		}
+		return []string{w.origin.URL(p), w.origin.URL(mirror)}
 	case "ldap+http":
 		return []string{"ldap://directory.invalid/cn=ca?certificateRevocationList", w.origin.URL(p)}
 	case "ldap-only":
@@ -344,7 +376,11 @@ func (w *World) serve(c int, ct Content) {
 	p := w.pathOf(c)
 	o := w.originOf(c)
 	body := w.build(c, ct)
-	for _, path := range []string{p, p + ".mirror"} {
+	mirror := p + ".mirror"
+	if i := strings.Index(p, "?"); i >= 0 {
+		mirror = p[:i] + ".mirror" + p[i:]
+	}
+	for _, path := range []string{p, mirror} {
 		if ct.Kind == "httperr" {
 			o.Status(path, []int{500, 503, 404}[ct.K%3], "<html>error</html>")
 		} else {
@@ -359,7 +395,14 @@ func (w *World) filePath(c int) string { return filepath.Join(w.fileDir, fmt.Spr
 
 func (w *World) opts() world.CRLOpts {
 	cfg := w.spec.Config
-	o := world.CRLOpts{WorkDir: w.workDir, Disk: cfg.Disk, Strict: cfg.Strict, Background: cfg.Background, Sig: cfg.Sig}
+	wd := w.workDir
+	switch cfg.WorkDirSpelling {
+	case "slash":
+		wd += "/"
+	case "dot":
+		wd = filepath.Dir(wd) + "/./" + filepath.Base(wd)
+	}
+	o := world.CRLOpts{WorkDir: wd, Disk: cfg.Disk, Strict: cfg.Strict, Background: cfg.Background, Sig: cfg.Sig}
 	for _, c := range cfg.ConfFiles {
 		o.Files = append(o.Files, w.filePath(c))
 	}
@@ -394,6 +437,18 @@ func (w *World) Checker() *crl.CRLRevocationChecker { return w.checker }
 
 // WorkDir returns the work_dir.
 func (w *World) WorkDir() string { return w.workDir }
+
+// SandboxDir returns the parent directory that holds work_dir (and the harness's own "files" directory).
+func (w *World) SandboxDir() string { return filepath.Dir(w.workDir) }
+
+// Spec returns the history being run.
+func (w *World) Spec() *Spec { return w.spec }
+
+// Known reports whether the model says an entry for CDP c exists in the running process.
+func (m *Model) Known(c int) bool { return m.proc[c].known }
+
+// Persisted reports whether the model says a list for CDP c is on disk.
+func (m *Model) Persisted(c int) bool { return m.persisted[c] != nil }
 
 // Observer lets a property package look at each step.
 type Observer interface {
@@ -447,6 +502,9 @@ func Run(spec Spec, x *ev.Ctx, obs Observer) (*Result, error) {
 		w.serve(c, spec.Initial[c])
 	}
 	res := &Result{}
+	if p, ok := obs.(interface{ BeforeStart(w *World) }); ok && obs != nil {
+		p.BeforeStart(w)
+	}
 
 	provision := func() error {
 		ch, err := world.NewChecker(w.opts())
@@ -548,6 +606,10 @@ func Run(spec Spec, x *ev.Ctx, obs Observer) (*Result, error) {
 						res.RejectedLoads++
 					}
 				}
+				if spec.Config.Background && created {
+					// a new entry (even one that came back loaded from disk) starts the asynchronous refresh
+					race = true
+				}
 				after := verdictOf(spec.Config.Strict, true, true, m.proc[e.CDP].loaded, listed(issuer, e.Probe))
 				allowed = []string{after}
 				if race && before != after {
@@ -567,15 +629,18 @@ func Run(spec Spec, x *ev.Ctx, obs Observer) (*Result, error) {
 			}
 			v := world.Ask(w.checker, w.leaf(issuer, e.Probe, e.CDP))
 			if race {
-				// The handshake started an asynchronous forced refresh (A). Run one ourselves (F1); whichever came
-				// first, this CDP is then fetched twice in total; wait for that, then run another forced refresh (F2),
-				// which can only start once A has released the process-wide refresh mutex.
-				w.checker.VerifForceUpdate()
-				deadline := time.Now().Add(5 * time.Second)
-				for w.originOf(e.CDP).Hits(w.pathOf(e.CDP)) < hitsBefore+2 && time.Now().Before(deadline) {
-					time.Sleep(200 * time.Microsecond)
+				// The handshake started an asynchronous forced refresh (A). A is the only update run that can fetch this
+				// location now, so once the origin has seen the fetch, A is inside the process-wide refresh critical
+				// section (or already done); a non-forced tick then acts as a barrier: it can only start after A has
+				// finished and is itself skipped as "recently finished".
+				deadline := time.Now().Add(20 * time.Second)
+				for w.originOf(e.CDP).Hits(w.pathOf(e.CDP)) < hitsBefore+1 && time.Now().Before(deadline) {
+					time.Sleep(100 * time.Microsecond)
 				}
-				w.checker.VerifForceUpdate()
+				if w.originOf(e.CDP).Hits(w.pathOf(e.CDP)) < hitsBefore+1 {
+					return res, fmt.Errorf("event %d: the background fetch started by the handshake never reached the origin (20 s)", i)
+				}
+				w.checker.VerifTick()
 				m.tick()
 				conf.tick()
 			}
